@@ -338,3 +338,85 @@ def oracle_busy(case, obs):
 
 FAMILIES.append(Family("ack_while_busy", gen_busy, impl_busy, None, None, oracle_busy,
                        lambda case, obs: json.dumps(case), shard=2, case_timeout=90, workers=6))
+
+
+# ---- a log file registered (second/later add_destinations) while another thread is logging ---------------------
+def gen_late_file(rng, tier):
+    out = []
+    quick = tier == "quick"
+    for i in range(0, 130, 5 if quick else 2):
+        for j in range(0, 40, 4 if quick else 1):
+            out.append({"segs": [[0, i], [1, j], [0, 2000], [1, 2000]]})
+    for _ in range(30 if quick else 600):
+        segs, t = [], rng.randrange(2)
+        for _ in range(rng.randrange(2, 10)):
+            segs.append([t, rng.randrange(1, 50 if t == 0 else 15)])
+            t = 1 - t
+        out.append({"segs": segs})
+    return out
+
+
+def impl_late_file(case):
+    import io
+    from eliot import _output, log_message, FileDestination
+    from lib.linesched import LineScheduler, Deadlock, segments_to_schedule, instrument
+    d = _output.Destinations()
+    _output.Logger._destinations = d
+    f1, f2 = io.BytesIO(), io.BytesIO()
+    d.add(FileDestination(file=f1))
+    sched = LineScheduler(files=("eliot/_output.py",))
+    instrument(d, sched)
+    returned = []
+
+    def a():
+        for n in range(1, 4):
+            log_message("m", n=n)
+            returned.append(n)
+
+    def b():
+        d.add(FileDestination(file=f2))
+        returned.append("registered")
+    try:
+        sched.run([a, b], segments_to_schedule([tuple(x) for x in case["segs"]]), fallback="finish_first")
+    except Deadlock as e:
+        return {"deadlock": str(e)[:300]}
+    order = list(returned)
+    for n in (10, 11):
+        log_message("m", n=n)          # acknowledged after the registration has returned
+    ts = list(sched.trace)
+    overlap = 0 in ts and 1 in ts and not (max(i for i, t in enumerate(ts) if t == 0) < ts.index(1)
+                                           or max(i for i, t in enumerate(ts) if t == 1) < ts.index(0))
+
+    def ns(f):
+        data = f.getvalue()
+        lines = data.split(b"\n")
+        return {"complete": [json.loads(l).get("n") for l in lines[:-1]], "fragment": lines[-1].decode("utf-8", "replace")}
+    return {"results": sched.results, "order": order, "f1": ns(f1), "f2": ns(f2), "overlap": overlap}
+
+
+def oracle_late_file(case, obs):
+    if "deadlock" in obs:
+        return "dead-lock: %s" % obs["deadlock"]
+    for r in obs["results"]:
+        if not r or r[0] != "ok":
+            return "a call raised: %r" % (r,)
+    if obs["f1"]["fragment"] or obs["f2"]["fragment"]:
+        return "a file ends in an incomplete line"
+    if obs["f1"]["complete"] != [1, 2, 3, 10, 11]:
+        return "the first file holds %r; the calls for 1, 2, 3, 10, 11 have all returned" % obs["f1"]["complete"]
+    # the later file: everything whose logging call started after the registration returned must be there
+    reg = obs["order"].index("registered")
+    must = [n for n in obs["order"][reg + 1:] if isinstance(n, int)][1:] + [10, 11]
+    got = obs["f2"]["complete"]
+    missing = [n for n in must if n not in got]
+    if missing:
+        return ("the file registered while another thread was logging holds %r; the calls for %r began after the registration "
+                "had returned and have all returned" % (got, missing))
+    if got != sorted(got) or len(set(got)) != len(got):
+        return "the later file holds %r (order/duplicates)" % got
+    return None
+
+
+FAMILIES.append(Family("late_file", gen_late_file, impl_late_file, None, None, oracle_late_file,
+                       lambda case, obs: json.dumps(case) if isinstance(obs, dict) and obs.get("overlap") else None,
+                       shard=40, case_timeout=30))
